@@ -128,14 +128,17 @@ def strTok (q : Char) (t : Str) : Option (Str × Str) :=
                              | none => none) else none
   | [] => none
 
+/-- an optional `-` -/
+def splitSign : Str → Str × Str
+  | [] => ([], [])
+  | c :: r => if c = '-' then (['-'], r) else ([], c :: r)
+
 /-- `BEV_SV_NUMBER_RE` value group `([-]){0,1}([\d]*[\.][\d]+)|([\d]+)`: the sign belongs to the first
     alternative only; (`value`, rest). -/
 def numTok (t : Str) : Option (Str × Str) :=
   let plain : Option (Str × Str) :=
     if (t.takeWhile isDigit).isEmpty then none else some (t.takeWhile isDigit, skipSp (t.dropWhile isDigit))
-  let su : Str × Str := match t with
-    | '-' :: u => (['-'], u)
-    | u => ([], u)
+  let su := splitSign t
   match su.2.dropWhile isDigit with
   | '.' :: f =>
     if (f.takeWhile isDigit).isEmpty then plain
@@ -183,13 +186,13 @@ def genTok {N : Type} (t : Str) : Option (BE N × Str) :=
   match attrTok t with
   | some (n, r) => some (.attr n, r)
   | none =>
-  match fn0Tok "text".toList t with
+  match fn0Tok ['t', 'e', 'x', 't'] t with
   | some r => some (.text, r)
   | none =>
-  match fn0Tok "last".toList t with
+  match fn0Tok ['l', 'a', 's', 't'] t with
   | some r => some (.last, r)
   | none =>
-  match fn0Tok "position".toList t with
+  match fn0Tok ['p', 'o', 's', 'i', 't', 'i', 'o', 'n'] t with
   | some r => some (.position, r)
   | none => none
 
@@ -224,10 +227,10 @@ def arithTok (t : Str) : Option (ArithOp × Str) :=
   | '-' :: r => some (.sub, skipSp r)
   | '*' :: r => some (.mul, skipSp r)
   | _ =>
-    match wordCI "div".toList t with
+    match wordCI ['d', 'i', 'v'] t with
     | some r => some (.div, skipSp r)
     | none =>
-    match wordCI "mod".toList t with
+    match wordCI ['m', 'o', 'd'] t with
     | some r => some (.mod, skipSp r)
     | none => none
 
@@ -239,10 +242,10 @@ def sp1 (r : Str) : Option Str :=
 
 /-- `BOOLEAN_OPS_RES` in order: `and[ \t]+`, `or[ \t]+`. -/
 def boolTok (t : Str) : Option (BoolOp × Str) :=
-  match (wordCI "and".toList t).bind sp1 with
+  match (wordCI ['a', 'n', 'd'] t).bind sp1 with
   | some r => some (.and, r)
   | none =>
-  match (wordCI "or".toList t).bind sp1 with
+  match (wordCI ['o', 'r'] t).bind sp1 with
   | some r => some (.or, r)
   | none => none
 
@@ -320,19 +323,19 @@ def item {N : Type} (nm : Num N) : Nat → Str → Option (BE N × Str)
     match genTok t with
     | some x => some x
     | none =>
-    match fnOpenTok "concat".toList t with
+    match fnOpenTok ['c', 'o', 'n', 'c', 'a', 't'] t with
     | some body =>
       match loop nm fuel .args (strip body) [] [] with
       | some (cur, done, rest) => (mkConcat (finishArgs cur done)).map (·, rest)
       | none => none
     | none =>
-    match fnOpenTok "contains".toList t with
+    match fnOpenTok ['c', 'o', 'n', 't', 'a', 'i', 'n', 's'] t with
     | some body =>
       match loop nm fuel .args (strip body) [] [] with
       | some (cur, done, rest) => (mkContains (finishArgs cur done)).map (·, rest)
       | none => none
     | none =>
-    match fnOpenTok "normalize-space".toList t with
+    match fnOpenTok ['n', 'o', 'r', 'm', 'a', 'l', 'i', 'z', 'e', '-', 's', 'p', 'a', 'c', 'e'] t with
     | some body =>
       match loop nm fuel .args (strip body) [] [] with
       | some (cur, done, rest) => (mkNspace (finishArgs cur done)).map (·, rest)
@@ -372,13 +375,13 @@ inductive AxisTok | parent | ancestor | ancestorOrSelf | descendant | descendant
   deriving DecidableEq, Repr, Inhabited
 
 def AxisTok.word : AxisTok → Str
-  | .parent => "parent".toList
-  | .ancestor => "ancestor".toList
-  | .ancestorOrSelf => "ancestor-or-self".toList
-  | .descendant => "descendant".toList
-  | .descendantOrSelf => "descendant-or-self".toList
-  | .child => "child".toList
-  | .self => "self".toList
+  | .parent => ['p', 'a', 'r', 'e', 'n', 't']
+  | .ancestor => ['a', 'n', 'c', 'e', 's', 't', 'o', 'r']
+  | .ancestorOrSelf => ['a', 'n', 'c', 'e', 's', 't', 'o', 'r', '-', 'o', 'r', '-', 's', 'e', 'l', 'f']
+  | .descendant => ['d', 'e', 's', 'c', 'e', 'n', 'd', 'a', 'n', 't']
+  | .descendantOrSelf => ['d', 'e', 's', 'c', 'e', 'n', 'd', 'a', 'n', 't', '-', 'o', 'r', '-', 's', 'e', 'l', 'f']
+  | .child => ['c', 'h', 'i', 'l', 'd']
+  | .self => ['s', 'e', 'l', 'f']
 
 def AxisTok.all : List AxisTok :=
   [.parent, .ancestor, .ancestorOrSelf, .descendant, .descendantOrSelf, .child, .self]
@@ -441,7 +444,7 @@ def suffix (r : Str) : Bool × Str :=
       match r2 with
       | '(' :: r3 =>
         match skipSp r3 with
-        | ')' :: r4 => (lower word = "node".toList && (r3.takeWhile isSpTab).all (· = ' '), r4)
+        | ')' :: r4 => (lower word = ['n', 'o', 'd', 'e'] && (r3.takeWhile isSpTab).all (· = ' '), r4)
         | _ => (false, r2)
       | _ => (false, r2)
     else (false, r)
@@ -471,7 +474,7 @@ def tagOp (s : Str) : Option (Bool × Option AxisTok × Str × Str) :=
     | some (ax, n, rest) =>
       let (isNode, rest') := suffix rest
       let name := lower n
-      some (dbl, ax, if isNode && name = "child".toList then ['*'] else name, rest')
+      some (dbl, ax, if isNode && name = ['c', 'h', 'i', 'l', 'd'] then ['*'] else name, rest')
 
 /-- The bracket handling after a tag operation: while a `[…]` follows and its stripped inner text is not
     empty, one body per bracket; an empty `[]` is consumed and ends the list; (bodies, remaining text). -/
